@@ -3,5 +3,6 @@ EXTENDS BatchLP
 MCEmitters == @EMITTERS@
 MCFlushers == @FLUSHERS@
 MCStoppers == @STOPPERS@
+MCCancels == @CANCELS@
 MCAdmit == @ADMIT@
 =============================================================================
